@@ -240,7 +240,9 @@ def rule_local(run):
     run.ob(ok, "convert_sequential.find_temporaries", file=gen.rel, line=ft.node.lineno, detail="inherit-rejected", expected="reading a temporary that the always block did not write raises, keyed by root", found="ok" if ok else "changed")
     cs = gen.func("IrGenerator.convert_sequential")
     order = [(c.func.attr, dotted(c.args[0])) for c in walk_ordered(cs.node) if isinstance(c, ast.Call) and isinstance(c.func, ast.Attribute) and c.func.attr.startswith("visit") and c.args]
-    ok = order[:1] == [("visit_referenced_objects", "find_temporaries")] and ("visit_referenced_objects", "replace_temporaries") in order
+    repl = [(c.func.attr, src(c.func.value)) for c in walk_ordered(cs.node) if isinstance(c, ast.Call) and isinstance(c.func, ast.Attribute) and c.func.attr.startswith("visit") and c.args and dotted(c.args[0]) == "replace_temporaries"]
+    ok = order[:1] == [("visit_referenced_objects", "find_temporaries")] and len(repl) == 2 and all(a == "visit_referenced_objects" for a, _ in repl) and len({r for _, r in repl}) == 2 \
+        and all(a == "visit_referenced_objects" for a, f_ in order if f_ in ("find_temporaries", "replace_temporaries"))
     run.ob(ok, "IrGenerator.convert_sequential", file=gen.rel, line=cs.node.lineno, detail="find-then-replace", expected="find over all referenced objects of the always block, then replace in both blocks", found=str(order))
     vh = run.idx.mod(VH)
     d = vh.func("VhdlScope.declare")
